@@ -38,6 +38,21 @@ def run(ctx):
     ]
 
 
+def selftest(ctx):
+    build_harness()
+    ev = ctx.work / "st-lex.ndjson"
+    vh(["c03-events", "seed=3", "exhaustive=2", "random=300", f"out={ev}"])
+    def shift(e):
+        if not e["toks"] or e["panic"]: return None
+        e["toks"][-1]["col"] += 1
+        return e
+    selftest_calls(ctx, "column-shifted", "Trace_TexLexer", "Trace_TexLexer_dev.cfg", ev, shift)
+    selftest_calls(ctx, "token-dropped", "Trace_TexLexer", "Trace_TexLexer_dev.cfg", ev,
+                   lambda e: dict(e, toks=e["toks"][1:]) if e["toks"] and not e["panic"] else None)
+    tlc_expect_refuted("MC_TexLexer", "NEG_TexLexer_NoSkipBlanks.cfg", "NoSkipBlanks", workers=3)
+    ctx.cov["rule"] = "selftest: corrupted recordings must be rejected, originals accepted, spec mutant refuted"
+
+
 def replay(path):
     r = json.load(open(path))
     print(json.dumps(r, indent=1)[:3000])
